@@ -142,6 +142,9 @@ pub struct Machine {
     /// a container became reachable from itself (under CPython aliasing semantics)
     pub cycle_seen: bool,
     pub track_graph: bool,
+    /// nesting depth per object id (containers: 1 + deepest child), when `track_graph`
+    pub depth_of: HashMap<u32, u32>,
+    pub max_depth: u32,
     /// continue past memo errors the way the real unpickler would (PUT overwrites; an undefined
     /// GET pushes an `Any`; a PUT on mark/empty is skipped) and collect them in `memo_errors`
     pub lenient_memo: bool,
@@ -203,6 +206,14 @@ impl Machine {
                 self.cycle_seen = true;
             }
         }
+        let mut d = self.depth_of.get(&parent).copied().unwrap_or(1);
+        for k in kids {
+            if !k.is_mark() {
+                d = d.max(1 + self.depth_of.get(&k.id).copied().unwrap_or(1));
+            }
+        }
+        self.depth_of.insert(parent, d);
+        self.max_depth = self.max_depth.max(d);
         let e = self.children.entry(parent).or_default();
         for k in kids {
             if !k.is_mark() {
@@ -570,6 +581,8 @@ pub struct Verdict {
     pub memo_errors: Vec<(usize, DisError)>,
     pub kind_violations: Vec<(usize, KindViolation)>,
     pub cycle_seen: bool,
+    /// deepest nesting of the object graph (only with track_graph)
+    pub max_depth: u32,
     pub max_memo: usize,
     pub gets_with_2plus_keys: usize,
     pub steps: usize,
@@ -600,6 +613,7 @@ pub fn run(ops: &[Op], lenient_memo: bool, track_graph: bool) -> Verdict {
         memo_errors: Vec::new(),
         kind_violations: Vec::new(),
         cycle_seen: false,
+        max_depth: 0,
         max_memo: 0,
         gets_with_2plus_keys: 0,
         steps: 0,
@@ -632,5 +646,6 @@ pub fn run(ops: &[Op], lenient_memo: bool, track_graph: bool) -> Verdict {
         }
     }
     v.cycle_seen = m.cycle_seen;
+    v.max_depth = m.max_depth;
     v
 }
